@@ -27,7 +27,7 @@ class Tags(State):
         Args:
             **kwargs: If kwargs contains `tags`, assign them to the attribute.
         """
-        self.tags = kwargs.pop('tags', [])
+        self.tags = list(kwargs.pop('tags', []))  # own list: Error appends to it
         super(Tags, self).__init__(*args, **kwargs)
 
     def __getattr__(self, item):
@@ -50,8 +50,7 @@ class Error(Tags):
         tags = kwargs.get('tags', [])
         accepted = kwargs.pop('accepted', False)
         if accepted:
-            tags.append('accepted')
-            kwargs['tags'] = tags
+            kwargs['tags'] = list(tags) + ['accepted']  # not the caller's list: other states may have been given it
         super(Error, self).__init__(*args, **kwargs)
 
     def enter(self, event_data):
